@@ -25,7 +25,7 @@
       field collection guarantees). *)
 From Coq Require Import List NArith ZArith Bool.
 From ApiFu Require Import Base.Sexp Fut.Plan Fut.Future Fut.ExecAsync Fut.ExecSync Fut.Denote Fut.SubPerm
-     Fut.Live Fut.AsyncWrap Fut.AsyncRun Fut.FutSpec Fut.VisibleProofs Fut.FutProofs.
+     Fut.Live Fut.AsyncWrap Fut.AsyncRun Fut.FutSpec Fut.VisibleProofs Fut.SyncMust Fut.FutProofs.
 Import ListNotations.
 
 (** ** the property *)
@@ -127,6 +127,22 @@ Theorem C02_same_error_for_every_null : forall md root1 root2 sigma1 sigma2 fuel
       exists e, snd x = [e] /\ In e (r_errors r1) /\ In e (r_errors r2) /\
                 (forall e', lands e' x -> e' = e).
 Proof. exact same_error_when_single_candidate. Qed.
+
+(** The synchronous reference itself conforms to its plan (in particular it reports an error for
+    every failure-null it leaves visible), and under the same exclusion every run reports, for
+    every visible failure-null, exactly the error the reference reports. *)
+Theorem C02_sync_reference_conforms : forall root,
+  conforms root (sr_data (run_sync root)) (sr_errors (run_sync root)).
+Proof. exact run_sync_conforms. Qed.
+
+Theorem C02_same_error_as_reference : forall md sigma fuel jfuel root,
+  excl_admissible_error_differs root = false ->
+  fair sigma -> count_async root <= fuel -> resp_depth root < jfuel ->
+  exists r, run fixed_flags sigma md fuel jfuel root = Done r /\
+    r_data r = sr_data (run_sync root) /\
+    forall x, In x (visible_nulls root) ->
+      exists e, snd x = [e] /\ In e (r_errors r) /\ In e (sr_errors (run_sync root)).
+Proof. exact same_error_as_reference. Qed.
 
 (** Without the exclusion the literal statement is false of the faithful model, as it is of the
     code (oracle key admissible-error-differs, a [known:] finding): the same request, the same
@@ -245,6 +261,8 @@ Print Assumptions C02_async_no_blank_key.
 Print Assumptions C02_async_data_or_error.
 Print Assumptions C02_error_sites_independent.
 Print Assumptions C02_same_error_for_every_null.
+Print Assumptions C02_sync_reference_conforms.
+Print Assumptions C02_same_error_as_reference.
 Print Assumptions C02_same_error_refuted.
 Print Assumptions C02_same_error_refuted_by_schedule.
 Print Assumptions C02_conforms_tag_blind.
